@@ -27,16 +27,16 @@ fn plain_bytes(s: &str) -> Vec<u8> {
 
 /// reference string table: ids from 1 in first-occurrence order, only deduplicated writes take part
 fn expected_stream(ops: &[Op], alpha: &[String]) -> (Vec<u8>, usize, usize) {
-    let mut table: Vec<usize> = Vec::new();
+    let mut table: std::collections::HashMap<usize, usize> = std::collections::HashMap::new();
     let mut out = Vec::new();
     let mut repeats = 0;
     for op in ops {
         if op.dedup {
-            if let Some(pos) = table.iter().position(|x| *x == op.s) {
+            if let Some(pos) = table.get(&op.s).copied() {
                 out.extend_from_slice(&vi_bytes(-((pos + 1) as i32)));
                 repeats += 1;
             } else {
-                table.push(op.s);
+                table.insert(op.s, table.len());
                 out.extend_from_slice(&plain_bytes(&alpha[op.s]));
             }
         } else {
@@ -172,7 +172,7 @@ pub fn c09(ctx: &mut Ctx, acc: &mut Acc) -> i32 {
         one_stream(acc, &ops, &alpha, "random");
     }
     // many distinct strings: ids that need two and three varint bytes (|id| >= 64, >= 8192)
-    let big: Vec<usize> = if ctx.thorough() { vec![70, 200, 8200, 8300] } else { vec![70, 8200] };
+    let big: Vec<usize> = if ctx.thorough() { vec![70, 200, 8200, 8300, 70_000, 140_000] } else { vec![70, 8200, 70_000] };
     for (bi, n) in big.iter().enumerate() {
         if bi % ctx.shards != ctx.shard {
             continue;
@@ -186,7 +186,7 @@ pub fn c09(ctx: &mut Ctx, acc: &mut Acc) -> i32 {
             ops.push(Op { dedup: !rng.chance(1, 10), s });
         }
         // the ids at the width boundaries, explicitly
-        for s in [62usize, 63, 64, 65, 8190, 8191, 8192, 8193] {
+        for s in [62usize, 63, 64, 65, 8190, 8191, 8192, 8193, 65_534, 65_535, 65_536, 65_537, 69_999] {
             if s < *n {
                 ops.push(Op { dedup: true, s });
             }
